@@ -547,6 +547,43 @@ def _bounded_by_height(g, call, o, _nofallback=False):
     return False
 
 
+def r12_dest_alpha_clip_offset(ck, P, rid='C03-R12'):
+    """sibling agreement inside the composite-region function: the destination's alpha map is placed by two statements - its bounds
+    rectangle (x, y of the rectangle the region is intersected with) and the translation applied to its clip.  Both say where alpha-map
+    pixel (0, 0) lies in destination space, so they are the same linear form (the source and mask alpha-map clips are held to
+    + alpha_origin by C03-R6)."""
+    R = ck.rule(rid, 'in the composite-region function the translation handed on with the destination alpha map\'s clip is the same linear form as the corner of the rectangle the region is intersected with for that alpha map\'s bounds (alpha-map pixel (0,0) is destination pixel (alpha_origin_x, alpha_origin_y) in both)', floor=2)
+    F = find_region_function(P)
+    img = [i for i, (n, t) in enumerate(F.params) if 'pixman_image' in t]
+    dest = img[2]
+    rect = None
+    for c in F.calls():
+        if c.callee and c.callee.endswith('intersect_rect') and len(c.a) >= 6:
+            lx, ly = linear(F, c.a[2]), linear(F, c.a[3])
+            if lx and any(t[0] == 'mem' and t[1][0] == 'arg' and t[1][1] == dest for t in lx):
+                rect = (lx, ly, c)
+    if rect is None:
+        raise AnalysisBroken('%s: intersection with the destination alpha map\'s bounds rectangle not found in %s' % (rid, F.name))
+    n = 0
+    for c in F.calls():
+        g = P.resolve(F, c.callee) if c.callee else None
+        if g is None or not g.internal or len(c.a) != 4:
+            continue
+        ch = _image_chain(F, c.a[1])
+        if ch is None or ch[0] != dest or 'image_common.alpha_map' not in ch[1]:
+            continue
+        for axis, argi, ref in (('x', 2, rect[0]), ('y', 3, rect[1])):
+            n += 1; ck.saw(F)
+            lf = linear(F, c.a[argi])
+            what = 'd%s of the dest.alpha_map clip' % axis
+            if lf == ref:
+                ck.ok(R, what)
+            else:
+                ck.violation(R, F.name, what, '%s is %s, but the bounds of the same alpha map are placed at %s (%s): the map\'s clip is applied to the region shifted by twice the origin, so pixels the clip admits are dropped and pixels it excludes are drawn' % (what, _lfs(F, lf), _lfs(F, ref), rect[2].loc()), c.loc())
+    if n == 0:
+        raise AnalysisBroken('%s: the destination alpha map\'s clip is not handed to a clip helper in %s' % (rid, F.name))
+
+
 def r9_clip_consulted_under_its_flag(ck, P, rid='C03-R9'):
     """T-GRD, interprocedural one level: wherever the library reads an image's clip region (hands it to a callee that does not write it),
     the same image's have_clip_region has been tested - in that function, or at every call site of it.  The region's contents are stale
